@@ -2,6 +2,32 @@
 """Regenerate the seeded-change table of DESIGN.md section 10 from /verif/seeded/*/meta.json."""
 import json, glob, os, re
 NOTES = {
+ "C04g-framer-checkstart-checks-entry-needs": "missed at first by C04: the slave's guard was always on its first frame; guard on the frame under the first frame added",
+ "C08g-act-clone-deep-copies-act": "missed at first by C08 (C12 family existed): clone-guards family (negated let in clones) added to C08",
+ "C09g-frame-checkenter-while-wrapping-aux": "missed at first: no aux (clone or not) whose own first frame carries a shared original aux; nested-shared family added",
+ "C12g-actor-initio-turns-ioinits-behaviour": "missed at first: no behaviour with a mutable ioinit default; `acc` harness doer (list kept in framer.me.acclog) + clone-doer-state family added",
+ "C16g-builder-tokenize-refuses-treat-trailing": "missed at first: no quoted string contained `#`; `quotes` program added",
+ "C20g-need-resolution-loop-duplicated-transiter": "missed at first: no transition had marker needs on two different shares; two-shares family added",
+ "C21g-need-check-simplified-band-test": "missed at first: values were dyadic; non-dyadic decimals on the band edges (+- one ulp) added",
+ "C22g-log-logstreak-drains-queued-container": "missed at first: the producer re-fetched the queue for every append; aliased producer (`qa`) and `same object emptied` oracle added",
+ "C24g-incomer-init-inherited-incomertls-gained": "missed at first: one connection per execution; two Incomers created by a real Server (interleaved tx, dead-then-new) added",
+ "C26g-server-serviceaxes-tidied-while-self": "missed at first: accepts never faulted; getpeername faults inside a batch added",
+ "C27g-cleanup-ioflo-aio-tcp-clienting": "missed at first: no TLS client in the reconnect schedules; ClientTls and PatronTls subjects added",
+ "C30g-two-site-avoid-copying-large": "missed at first: responses were checked at delivery only; every kept response re-checked after the sequence, mixed fixed/streamed/error answers",
+ "C32g-duplicated-content-length-handling-requestant": "missed at first: Content-Length mutations had no high bytes; every byte 0x80-0xFF at each position added",
+ "C34g-patron-redirect-resolves-location-against": "missed at first: relative Locations had plain queries; `://` inside query/fragment of relative forms",
+ "C35g-gramstack-serviceonetxpkt-udpstack-restructured-": "missed at first: no zero-length datagram; added",
+ "C37g-ipdevice-ha-became-property-whose": "missed at first: plain devices with string addresses only; IpRemoteDevice configuration with normalised (host, port) spellings added",
+ "C39g-odict-keys-inherited-lodict-modict": "missed at first: keys() never held across a mutation or edited; held/edited views and delete-while-iterating added",
+ "C40g-packifyinto-de-duplicated-reuse-packify": "missed at first: packifyInto only with size=None; explicit larger sizes into pre-filled buffers, both byte orders",
+ "C42g-monotimer-latest-clock-reading-state": "missed at first: one timer per configuration; two-MonoTimer configurations with cross-talk oracle added",
+ "C45g-arbiterswitch-update-optimised-walk-group": "missed at first: group shares always created by the arbiter; pre-created .insels/.inimps in permuted field order",
+ "C46g-navigating-wrap2-used-controllerpid-action": "missed at first: differences never exceeded 3*wrap; multi-turn differences added",
+ "C47g-framer-mains-used-framer-surname": "missed at first: clone chains were at most 2 deep; built plans with two roots x chains of depth 1..3 added",
+ "C03h-skedder-run-tasker-whose-turn": "missed at first: every C03 framer had period 0; slow-period tasker bid between its turns (R6) added",
+ "C11h-three-copies-bid-period-period": "missed at first: no framer was re-bid with a period while inside a timeout frame; clocks-rebid family added",
+ "C12h-framer-prune-called-raze-verb": "missed at first: reared moots had one nested insular clone; 2-3 adjacent ones, razed and reared again",
+ "C13h-builder-parserelation-localizes-explicit-framer": "missed at first: no inode named the lexically previous framer/frame and no moot named itself; explicit-name family added",
  "C18f-fetchshare-cache-by-spelling": "missed at first: lookups ran only on the final state of each history; the lookup battery (every dotted spelling, identity compared) now runs after every operation",
  "C06f-claimed-only-if-free": "missed at first by C06 (C09 caught it): the hand-over family was only in C09; added to C06",
  "C05f-exitall-extends-head-in-place": "missed at first by C05 and C10: no framer was stopped while its conditional aux was running and then restarted; restart-with-running-condaux programs added",
